@@ -36,8 +36,10 @@ def reqInts (r : Req) : Int × Int × Int × Int × Int × Int × Int :=
 macro "nat_bits" : tactic => `(tactic|
   first
     | rfl
-    | (simp [Nat.lor_comm, Nat.lor_assoc]; done)
-    | (apply Nat.eq_of_testBit_eq; intro i; simp only [Nat.testBit_or, Nat.testBit_shiftLeft]; grind))
+    | (simp only [nnFfs, nnFfcs, nnFfe, nnForward, nnRetry, cmdNnp, cmdFfd, fr, Nat.lor_comm, Nat.lor_left_comm,
+         Nat.lor_assoc]; done)
+    | (simp only [nnFfs, nnFfcs, nnFfe, nnForward, nnRetry, cmdNnp, cmdFfd, fr]
+       apply Nat.eq_of_testBit_eq; intro i; simp only [Nat.testBit_or, Nat.testBit_shiftLeft]; grind))
 
 /-- cast-free form of a generated packet expression, then comparison of the naturals -/
 macro "ff_eq" : tactic => `(tactic|
